@@ -10,6 +10,7 @@ import (
 	"errors"
 	"flag"
 	"fmt"
+	"os"
 	"sort"
 	"strings"
 
@@ -759,5 +760,26 @@ func main() {
 }
 
 func replay(r *vlib.Run, prop string) {
-	vlib.Fatalf("replay: load the scenario and choices from the file and call runOnce (see DESIGN.md); not wired for this harness yet")
+	var rf replayFile
+	r.LoadReplay(&rf)
+	o := runOnce(rf.Scenario, rf.Choices, true)
+	bad := verdicts(prop, rf.Scenario, o)
+	fmt.Printf("scenario: %s\nschedule: %v\ncompletion order: %v\nRun returned: %v\n", rf.Scenario, rf.Choices, o.w.order, o.runErr)
+	var ids []string
+	for id := range o.res.Logs {
+		ids = append(ids, id)
+	}
+	sort.Strings(ids)
+	for _, id := range ids {
+		fmt.Printf("thread %s: %s\n", id, strings.Join(o.res.Logs[id], "; "))
+	}
+	if len(bad) == 0 {
+		fmt.Println("observed: no violation on this tree")
+		os.Exit(0)
+	}
+	for _, b := range bad {
+		fmt.Println("observed:", b)
+	}
+	fmt.Printf("VIOLATION property=%s replay=%s\n", prop, r.ReplayIn)
+	os.Exit(1)
 }
